@@ -36,7 +36,7 @@ def list_tag(ctx):
             msg = 'the identifier marker is %s, expected self.clock.inc(actor)' % fmt(strip_conv(idt[2][2]), 4)
     ctx.check(ok, 'insert_index', body, 'marker = self.clock.inc(actor)', msg)
     body = ctx.inherent(LIST, 'delete_index')
-    r = drop_lv(inline_option_maps(facts, interp(facts, body).ret))
+    r = drop_lv(inline_option_maps(facts, normal(facts, interp(facts, body).ret)))    # crate-local accessors (iter_entries, ..) expanded
     ok = False
     msg = 'delete_index builds %s' % fmt(r, 4)
     # every Delete op the function can return (through `map`, `?` or a match; the other alternatives are None)
@@ -72,7 +72,6 @@ def list_tag(ctx):
 
 
 @rule('ID-CMP', {
-    'C13': 'x lands at the requested index only if the identifier obtained for it really lies between the adjacent bounds and the element is stored and read under that identifier (adjacency of the bounds is IDX-ADJ)',
     'C14': 'a non-antisymmetric table gives a<b and b<a for prefix-related identifiers; a wrong node orientation breaks totality',
     'C12': 'the global element order is the identifier order',
 }, floor=1)
@@ -138,7 +137,7 @@ def id_cmp(ctx):
     ctx.check(not errs, 'cmp', body, 'lexicographic, antisymmetric prefix rule', errs[0] if errs else '', details=det)
 
 
-@rule('ID-PCMP', {'C14': 'partial_cmp must agree with cmp (consistent total order)', 'C13': 'GList picks the adjacent element with `<` / `>` on identifiers'}, floor=1)
+@rule('ID-PCMP', {'C14': 'partial_cmp must agree with cmp (consistent total order)'}, floor=1)
 def id_pcmp(ctx):
     """Identifier::partial_cmp == Some(self.cmp(other))."""
     facts = ctx.facts
@@ -533,7 +532,6 @@ def mk_validate(ctx):
 
 
 @rule('ID-MARKER', {
-    'C13': 'x lands at the requested index only if the identifier obtained for it really lies between the adjacent bounds and the element is stored and read under that identifier (adjacency of the bounds is IDX-ADJ)',
     'C12': 'the gate and the identifier must agree on the dot: Op::dot() reads the marker of the last path element, so every identifier '
            'between() builds must end with the caller\'s marker',
     'C14': 'identifiers tagged with distinct dots never collide only if the marker really ends the path',
@@ -610,7 +608,6 @@ def id_marker(ctx):
 
 
 @rule('ID-BETWEEN', {
-    'C13': 'x lands at the requested index only if the identifier obtained for it really lies between the adjacent bounds and the element is stored and read under that identifier (adjacency of the bounds is IDX-ADJ)',
     'C14': 'between(low, high, marker) must be strictly between: the sibling-marker shortcut is sound only for l_m < marker < h_m '
            '(with <= the result equals or precedes a bound), and a one-node identifier is compared at the first path node, so its '
            'position must be derived from the first node of the bound',
@@ -819,7 +816,6 @@ def id_between(ctx):
 
 
 @rule('LIST-APPLY', {
-    'C13': 'x lands at the requested index only if the identifier obtained for it really lies between the adjacent bounds and the element is stored and read under that identifier (adjacency of the bounds is IDX-ADJ)',
     'C12': 'an Insert must insert exactly the op\'s identifier and value (if absent) and a Delete must remove exactly the op\'s identifier',
 }, floor=2)
 def list_apply(ctx):
@@ -947,7 +943,6 @@ def mk_access(ctx):
 
 
 @rule('ID-RATIONAL', {
-    'C13': 'x lands at the requested index only if the identifier obtained for it really lies between the adjacent bounds and the element is stored and read under that identifier (adjacency of the bounds is IDX-ADJ)',
     'C14': 'the position of a new identifier node must lie strictly between the neighbouring positions it was given: above the low one, '
            'below the high one, and between the two when both are given',
     'C12': 'List allocates every position through this function',
